@@ -150,7 +150,7 @@ def run(ctx, cases_override=None):
                 raise MachineryError("vacuity guard: %s is never reached in the model" % inv)
     # ---------------------------------------------------------------- GEN
     if cases_override is None:
-        per_worker = (3500 if th else 130)
+        per_worker = (2500 if th else 130)
         gen = ctx.tlc("CommentSync", "CommentSync_Gen.cfg", workers=nw, simulate=per_worker, depth=40, deadlock=False,
                       timeout=3000, tag="gen")
         cases = [v[0] for v in prints(gen, "CASE")]
